@@ -599,9 +599,11 @@ class GIRWriter(XMLWriter):
             attrs.append(('invoker', vf.invoker))
         self._write_callable(vf, 'virtual-method', attrs)
 
-    def _write_callback(self, callback):
+    def _write_callback(self, callback, anonymous=False):
         attrs = []
-        if callback.ctype != callback.name:
+        # The anonymous callback of a field is named after the field;
+        # that name is not a C type.
+        if not anonymous or callback.ctype != callback.name:
             attrs.append(('c:type', callback.ctype))
         self._write_callable(callback, 'callback', attrs)
 
@@ -680,7 +682,7 @@ class GIRWriter(XMLWriter):
                 self._append_node_generic(field, attrs)
                 with self.tagcontext('field', attrs):
                     self._write_generic(field)
-                    self._write_callback(field.anonymous_node)
+                    self._write_callback(field.anonymous_node, anonymous=True)
             elif isinstance(field.anonymous_node, ast.Record):
                 self._write_record(field.anonymous_node)
             elif isinstance(field.anonymous_node, ast.Union):
